@@ -4,6 +4,7 @@
 #include "session.h"
 #include "arena.h"
 #include "ledger.h"
+#include "of_openfec_api.h"
 
 typedef struct {
 	unsigned mon;
@@ -31,7 +32,7 @@ static void profile(const char *p)
 	f.codecs = 15; f.apis = 3; f.finish = 2; f.cb = 2; f.dups = 1; f.per_mask = 1;
 	f.exh_n_quick = 12; f.exh_n_thorough = 15; f.samples_quick = 500; f.samples_thorough = 5000;
 	if (!strcmp(p, "C01")) { f.mon = MON_C01; }
-	else if (!strcmp(p, "C02")) { f.mon = MON_C02 | MON_C01; f.codecs = 7; f.cb = 0; f.exh_n_quick = 11; f.exh_n_thorough = 15; f.per_mask = 2; }
+	else if (!strcmp(p, "C02")) { f.mon = MON_C02 | MON_C01; f.codecs = 7; f.cb = 2; f.exh_n_quick = 11; f.exh_n_thorough = 15; f.per_mask = 2; }
 	else if (!strcmp(p, "C03")) { f.mon = MON_C03; f.codecs = 8; f.finish = 1; f.need_oracle = 1; f.cb = 0; f.per_mask = 2; f.exh_n_quick = 13; f.exh_n_thorough = 16; f.samples_quick = 800; f.samples_thorough = 8000; }
 	else if (!strcmp(p, "C04")) { f.mon = MON_C04; f.codecs = 8; f.apis = 1; f.finish = 0; f.need_oracle = 1; f.cb = 2; f.per_mask = 2; f.exh_n_quick = 12; f.exh_n_thorough = 15; }
 	else if (!strcmp(p, "C07")) { f.mon = MON_C07; f.roles = 1; f.stops = 1; f.lens = 1; f.exh_n_quick = 8; f.exh_n_thorough = 11; f.samples_quick = 120; f.samples_thorough = 1500; }
@@ -117,8 +118,18 @@ static void build_cfg_list(void)
 			add_cfg(3, 0, 6000, 6000, 3, 1, 1); add_cfg(3, 0, 1200, 9000, 4, 16807, 1);
 			if (T) { add_cfg(3, 0, 9000, 6000, 5, 2, 1); add_cfg(3, 0, 2000, 20000, 3, 3, 1); add_cfg(3, 0, 20000, 10000, 3, 1, 1); add_cfg(3, 0, 25000, 25000, 3, 5, 1); /* n at the codec limit: tens of thousands of nested calls */ }
 		}
+		/* extra-entry counts of exactly 256 and 512 (2(n-k) - N1*k at low rates): a count or flag narrowed to 8 bits reads zero there */
+		add_cfg(3, 0, 10, 148, 4, 1, 1); add_cfg(3, 0, 64, 256, 4, 16807, 1); add_cfg(3, 0, 30, 218, 6, 2, 1); add_cfg(3, 0, 10, 276, 4, 3, 1);
 		if (!strcmp(g_run.prop, "C07") || !strcmp(g_run.prop, "C08") || !strcmp(g_run.prop, "C01")) {
-			/* parameter limits */
+			/* parameter limits: the largest block the library itself advertises (OF_CTRL_GET_MAX_N), whatever that is */
+			{
+				of_session_t *ls = NULL; UINT32 mn = 0;
+				if (of_create_codec_instance(&ls, OF_CODEC_LDPC_STAIRCASE_STABLE, OF_DECODER, 0) == OF_STATUS_OK && ls) {
+					if (of_get_control_parameter(ls, OF_CTRL_GET_MAX_N, &mn, sizeof mn) != OF_STATUS_OK) mn = 0;
+					of_release_codec_instance(ls);
+				}
+				if (mn > 50000 && mn <= 400000) { add_cfg(3, 0, mn - 3, 3, 3, 1, 1); add_cfg(3, 0, mn - 4, 4, 3, 2, 1); }
+			}
 			add_cfg(3, 0, 49997, 3, 3, 1, 1);
 			if (T) { add_cfg(3, 0, 25000, 25000, 4, 1, 1); add_cfg(3, 0, 3, 49997, 3, 1, 1); }
 		}
@@ -162,8 +173,10 @@ static void run_one(const block_t *b, const uint8_t *inset, uint64_t maskdesc, i
 	hi.api = pick(g_pf.apis, h >> 3);
 	hi.finish = g_pf.finish == 2 ? (int)((h >> 7) % 3 != 0) : g_pf.finish;
 	if (g_pf.cb == 1) hi.cbmode = 1 + (int)((h >> 11) % 5); else if (g_pf.cb == 2) hi.cbmode = ((h >> 11) % 3 == 0) ? 1 + (int)((h >> 17) % 5) : 0;
-	if (g_pf.roles) hi.roles = (int)((h >> 23) % 4 == 0 ? 1 + ((h >> 29) & 1) : 0);
-	else hi.roles = (int)((h >> 23) % 16 == 0 ? 1 + ((h >> 29) & 1) : 0);      /* an encoder+decoder instance now and then */
+	if (g_pf.roles) hi.roles = (int)((h >> 23) % 4 == 0 ? 1 + ((h >> 29) % 3) : 0);
+	else hi.roles = (int)((h >> 23) % 16 == 0 ? 1 + ((h >> 29) % 3) : 0);      /* an encoder+decoder instance now and then */
+	hi.dupcopy = 1;
+	hi.reenter = hi.cbmode && (h >> 43) % 4 == 0;
 	int order = hi.api == 1 ? 0 : (int)((h >> 31) % (g_pf.dups ? 5 : 4));
 	hi.nsub = make_sequence(inset, n, k, order, r);
 	if (g_pf.stops && hi.nsub && (h >> 37) % 4 == 0) hi.nsub = rng_below(r, hi.nsub + 1);   /* release mid-way */
